@@ -1061,6 +1061,155 @@ fn random_pair(rng: &mut Rng) -> Case {
     }
 }
 
+// ------------------------------------------------------------------------------------------
+// Two producer threads on one StreamJoinManager (process_event takes &self): without watermark
+// updates every serialisation of the two arrival orders has the same reference result, so the
+// pairs handed to the result handler must be exactly the reference pairs, each once.
+
+#[derive(Clone, Debug)]
+struct ConcCase {
+    w: u64,
+    cond: Cond,
+    left: Vec<Ev>,
+    right: Vec<Ev>,
+    /// the result handler busy-waits this long (it runs inside the join)
+    handler_spin_us: u64,
+}
+
+impl ConcCase {
+    fn to_json(&self) -> Json {
+        json!({"kind": "concurrent-manager", "window_s": self.w, "cond": format!("{:?}", self.cond), "handler_spin_us": self.handler_spin_us,
+               "left": self.left.iter().map(ev_json).collect::<Vec<_>>(), "right": self.right.iter().map(ev_json).collect::<Vec<_>>()})
+    }
+    fn from_json(j: &Json) -> Option<ConcCase> {
+        Some(ConcCase {
+            w: j["window_s"].as_u64()?,
+            cond: if j["cond"].as_str()? == "True" { Cond::True } else { Cond::VLe },
+            handler_spin_us: j["handler_spin_us"].as_u64()?,
+            left: j["left"].as_array()?.iter().map(ev_parse).collect::<Option<Vec<_>>>()?,
+            right: j["right"].as_array()?.iter().map(ev_parse).collect::<Option<Vec<_>>>()?,
+        })
+    }
+}
+
+fn gen_conc_case(rng: &mut Rng) -> ConcCase {
+    let nl = 40 + rng.below(260);
+    let nr = 40 + rng.below(260);
+    let nkeys = 2 + rng.below(30);
+    let ts_dom = *rng.pick(&[20usize, 60, 200]);
+    let ev = |rng: &mut Rng| Ev { key: if rng.chance(1, 12) { None } else { Some(rng.below(nkeys) as u8) }, ts: rng.below(ts_dom + 1) as u64, v: rng.range(0, 2) };
+    ConcCase {
+        w: *rng.pick(&[0u64, 1, 2, 5, 20]),
+        cond: if rng.bool() { Cond::True } else { Cond::VLe },
+        left: (0..nl).map(|_| ev(rng)).collect(),
+        right: (0..nr).map(|_| ev(rng)).collect(),
+        handler_spin_us: *rng.pick(&[0u64, 5, 20, 60]),
+    }
+}
+
+/// (emitted pairs as (left index, right index) in handler order, panicked)
+fn run_conc(c: &ConcCase) -> Result<Vec<(usize, usize)>, String> {
+    let sink: Arc<Mutex<Vec<(usize, usize)>>> = Arc::new(Mutex::new(Vec::new()));
+    let s2 = sink.clone();
+    let spin = c.handler_spin_us;
+    let mut m = StreamJoinManager::new();
+    m.register_join(
+        "j".to_string(),
+        make_node(c.w, 0, c.cond),
+        Box::new(move |je| {
+            let idx = |e: &Option<StreamEvent>| e.as_ref().and_then(|e| e.id[1..].parse::<usize>().ok()).unwrap_or(usize::MAX);
+            s2.lock().unwrap().push((idx(&je.left), idx(&je.right)));
+            if spin > 0 {
+                let t = std::time::Instant::now();
+                while (t.elapsed().as_micros() as u64) < spin {
+                    std::hint::spin_loop();
+                }
+            }
+        }),
+    );
+    let m = Arc::new(m);
+    let go = Arc::new(std::sync::Barrier::new(2));
+    let res: Vec<Result<(), String>> = std::thread::scope(|sc| {
+        let hs: Vec<_> = [('L', &c.left), ('R', &c.right)]
+            .into_iter()
+            .map(|(side, evs)| {
+                let m = m.clone();
+                let go = go.clone();
+                sc.spawn(move || {
+                    go.wait();
+                    for (i, e) in evs.iter().enumerate() {
+                        let ev = make_event(side, i, e, false, 0);
+                        if let Err(p) = pan::catch(|| m.process_event(ev)) {
+                            return Err(p.msg);
+                        }
+                        if i % 5 == 0 {
+                            std::thread::yield_now();
+                        }
+                    }
+                    Ok(())
+                })
+            })
+            .collect();
+        hs.into_iter().map(|h| h.join().unwrap_or_else(|_| Err("producer thread died".into()))).collect()
+    });
+    for r in res {
+        r?;
+    }
+    let v = sink.lock().unwrap().clone();
+    Ok(v)
+}
+
+fn judge_conc(c: &ConcCase, got: &[(usize, usize)]) -> Option<(String, String)> {
+    let mut want: BTreeSet<(usize, usize)> = BTreeSet::new();
+    for (i, l) in c.left.iter().enumerate() {
+        for (j, r) in c.right.iter().enumerate() {
+            if l.key.is_some() && l.key == r.key && abs_diff(l.ts, r.ts) <= c.w && cond_true(c.cond, l, r) {
+                want.insert((i, j));
+            }
+        }
+    }
+    let gs: BTreeSet<(usize, usize)> = got.iter().copied().collect();
+    if gs.len() != got.len() {
+        let mut seen = BTreeSet::new();
+        let dup = got.iter().find(|p| !seen.insert(**p)).unwrap();
+        return Some(("a-pair-emitted-twice".into(), format!("pair (L{}, R{}) reached the result handler twice", dup.0, dup.1)));
+    }
+    if let Some(p) = gs.difference(&want).next() {
+        return Some(("a-pair-outside-the-reference".into(), format!("pair (L{}, R{}) was emitted and is not a reference pair", p.0, p.1)));
+    }
+    let missing: Vec<&(usize, usize)> = want.difference(&gs).collect();
+    if let Some(p) = missing.first() {
+        return Some((
+            "reference-pairs-missing-without-any-watermark-update".into(),
+            format!("{} of {} reference pairs never reached the result handler (first: L{}, R{}); no watermark was advanced, so nothing can have been evicted", missing.len(), want.len(), p.0, p.1),
+        ));
+    }
+    None
+}
+
+fn check_conc(c: &ConcCase, st: &mut Stats) {
+    st.eval();
+    st.count("concurrent_manager::runs(one producer thread per stream, 40..=300 events a side)");
+    match run_conc(c) {
+        Err(msg) => st.violation(Violation { clause: "no-panic".into(), sig: "C14|no-panic|concurrent-manager".into(), detail: format!("process_event panicked in a producer thread: {}", msg), case: c.to_json() }),
+        Ok(got) => {
+            st.add("concurrent_manager::pairs_emitted", got.len() as u64);
+            // how interleaved was the run? count switches of "which side completed the pair"
+            if got.len() > 1 {
+                st.nontrivial(hash_of(&c.to_json().to_string()));
+            }
+            if let Some((cause, detail)) = judge_conc(c, &got) {
+                st.violation(Violation {
+                    clause: "concurrent-producers".into(),
+                    sig: format!("C14|concurrent-producers|{}", cause),
+                    detail: format!("StreamJoinManager fed by two threads ({} left, {} right events, window {} s): {}", c.left.len(), c.right.len(), c.w, detail),
+                    case: c.to_json(),
+                });
+            }
+        }
+    }
+}
+
 /// Every sequence of length 0..=max_len over `kinds`.
 fn all_seqs(kinds: &[Ev], max_len: usize) -> Vec<Vec<Ev>> {
     let mut out: Vec<Vec<Ev>> = vec![vec![]];
@@ -1205,6 +1354,17 @@ impl Check for C14 {
                 explore_long_pair(rng, st, 1);
             }
         });
+        // ---------------- two producer threads on one manager ----------------
+        let conc = cli.n(12, 300) as usize;
+        shards(cli, (nthreads / 2).max(1), st, |_shard, rng, st| {
+            for _ in 0..conc {
+                if cli.expired() {
+                    break;
+                }
+                let c = gen_conc_case(rng);
+                check_conc(&c, st);
+            }
+        });
         if st.get("runs_with_watermark_updates") == 0 || st.get("runs_without_watermark_update") == 0 {
             st.inconclusive("one of the two run kinds (with / without watermark updates) was never executed");
         }
@@ -1217,6 +1377,20 @@ impl Check for C14 {
     }
 
     fn replay(&self, _cli: &Cli, case: &Json) -> Vec<Violation> {
+        if case["kind"].as_str() == Some("concurrent-manager") {
+            let Some(c) = ConcCase::from_json(case) else {
+                return vec![Violation { clause: "harness".into(), sig: "C14|harness|bad-case".into(), detail: "cannot decode case".into(), case: case.clone() }];
+            };
+            // schedule-dependent: re-execute
+            for _ in 0..40 {
+                let mut st = Stats::new();
+                check_conc(&c, &mut st);
+                if !st.violations.is_empty() {
+                    return st.violations;
+                }
+            }
+            return vec![];
+        }
         let Some(c) = Case::from_json(case) else {
             return vec![Violation {
                 clause: "harness".into(),
